@@ -8,7 +8,7 @@
    The extracted marker_ok is applied to every marker the implementation reports on every run. *)
 From Coq Require Import List NArith Bool.
 Import ListNotations.
-Require Import Parser SBase SFetch Pipe Positions PosProofs ScanPos ScanPosTop.
+Require Import Parser SBase SBuf SFetch Pipe Positions PosProofs ScanPos ScanPosTop BufferedTransfer.
 Open Scope N_scope.
 
 (* In a CR-free input made of complete lines [ls] followed by a partial line [cur], the j-th character of [cur]
@@ -46,4 +46,22 @@ Print Assumptions C12_pipeline_positions_true.
 Example C12_pipeline_example :
   let orig := [97; 58; 10; 32; 32; 45; 32; 98; 13; 10; 32; 32; 45; 32; 99; 13; 100; 58; 32; 101] in
   forallb (fun c => negb (c =? 0)) orig = true /\ snd (run_str orig) = PDone /\ length (fst (run_str orig)) = 13%nat.
+Proof. vm_compute. repeat split. Qed.
+
+(* The same over the BUFFERED input back-end of ANY capacity >= 8 (Parser::new_from_iter, Yaml::load_from_str), by the
+   value-level agreement of the back-ends (C10): whenever the buffered run does not exhaust its fuel — bounded work is
+   proved for the string instance only; the correspondence run monitors it — its event spans and error markers are
+   true positions as well. *)
+Theorem C12_pipeline_positions_true_buffered : forall (orig : list N) cap,
+  (8 <= cap)%nat -> Forall (fun c => c <> 0%N) orig -> snd (run_buf cap orig) <> PFuel ->
+  let '(evs, r) := run_buf cap orig in
+  Forall (fun es => true_span orig (snd es)) evs
+  /\ (forall site m, r = PScanErr site m -> site <> 0%N -> true_mark orig m)
+  /\ (forall site m, r = PParseErr site m -> true_mark orig m).
+Proof. exact pipeline_positions_true_buffered. Qed.
+Print Assumptions C12_pipeline_positions_true_buffered.
+
+Example C12_buffered_example :
+  let orig := [97; 58; 10; 32; 32; 45; 32; 98; 13; 10; 32; 32; 45; 32; 99; 13; 100; 58; 32; 101] in
+  snd (run_buf 8 orig) = PDone /\ snd (run_buf 16 orig) = PDone /\ run_buf 16 orig = run_str orig.
 Proof. vm_compute. repeat split. Qed.
